@@ -112,6 +112,9 @@ func tEq(a, b Term) Term {
 	if a.S == b.S {
 		return tTrue
 	}
+	if isNumeral(a.S) && isNumeral(b.S) {
+		return tFalse // two different integer literals
+	}
 	return boolT("(= " + a.S + " " + b.S + ")")
 }
 
@@ -236,4 +239,16 @@ func smtIdent(s string) string {
 		}
 	}
 	return b.String()
+}
+
+func isNumeral(s string) bool {
+	if s == "" {
+		return false
+	}
+	for _, c := range s {
+		if c < '0' || c > '9' {
+			return false
+		}
+	}
+	return true
 }
